@@ -34,7 +34,8 @@
 (* indices etc", Form._compute_renumbering, _sorted_integrals, Sum/Product *)
 (* operand sorting, canonicalize_metadata key sorting):                    *)
 (*   - counts of coefficients / constants / labels: only their relative    *)
-(*     ORDER among the objects used in the form; ufl_ids of meshes: only   *)
+(*     ORDER among the objects of the form (those found only in an         *)
+(*     argument slot without Argument come after); ufl_ids of meshes: only *)
 (*     the order among the integration domains and among the other meshes  *)
 (*     (Form.domain_numbering);                                            *)
 (*   - names of free indices: only the pattern (first-occurrence order)    *)
@@ -205,6 +206,17 @@ WellFormed(p) ==
 (* Canon *)
 RankIn(S, x) == Cardinality({y \in S : y < x})
 
+\* Form.terminal_numbering does not look into argument slots that hold no Argument (the result of
+\* an action): coefficients / constants that occur only there are not coefficients of the form.
+\* They are numbered after the form's own ones.
+HasArg(t) == \E n \in Nodes(t) : n.op = "arg"
+RECURSIVE NodesOut(_)
+NodesOut(t) == {t} \cup UNION {NodesOut(t.s[i]) : i \in {x \in DOMAIN t.s : ~(t.op = "ext" /\ x > t.a[2] /\ ~HasArg(t.s[x]))}}
+FormRefs(p, op) == UNION {{n.a[1] : n \in {m \in NodesOut(p.itgs[j].g) : m.op = op}} : j \in DOMAIN p.itgs}
+CountNum(tbl, form, used, c) ==
+  IF c \in form THEN RankIn({tbl[x][1] : x \in form}, tbl[c][1])
+  ELSE Cardinality(form) + RankIn({tbl[x][1] : x \in used \ form}, tbl[c][1])
+
 \* Form.domain_numbering: the integration domains sorted by (gdim, tdim, ufl_id) come first, then
 \* the other domains of the form sorted the same way (tdim is 2 for both cells of the model)
 IntDoms(p) == {p.itgs[j].dom : j \in DOMAIN p.itgs}
@@ -218,10 +230,10 @@ ElemVec(p, e) == LET E == p.elems[e] IN
 
 \* table references replaced by what they denote; counts by their rank
 InlineNode(p, t) ==
-  CASE t.op = "coef" -> [t EXCEPT !.a = <<RankIn({p.coefs[c][C_K] : c \in UsedCoefs(p)}, p.coefs[t.a[1]][C_K])>>
+  CASE t.op = "coef" -> [t EXCEPT !.a = <<CountNum(p.coefs, FormRefs(p, "coef"), UsedCoefs(p), t.a[1])>>
                                         \o ElemVec(p, p.coefs[t.a[1]][C_E])]
     [] t.op = "arg"  -> [t EXCEPT !.a = <<t.a[1], t.a[2]>> \o ElemVec(p, t.a[3])]
-    [] t.op = "cst"  -> [t EXCEPT !.a = <<RankIn({p.csts[c][K_K] : c \in UsedCsts(p)}, p.csts[t.a[1]][K_K]),
+    [] t.op = "cst"  -> [t EXCEPT !.a = <<CountNum(p.csts, FormRefs(p, "cst"), UsedCsts(p), t.a[1]),
                                           p.csts[t.a[1]][K_SH]>> \o DomVec(p, p.csts[t.a[1]][K_D])]
     [] t.op = "geo"  -> [t EXCEPT !.a = <<t.a[1]>> \o DomVec(p, t.a[2])]
     [] t.op = "var"  -> [t EXCEPT !.a = <<RankIn(UsedLabels(p), t.a[1])>>]
@@ -532,8 +544,8 @@ i2 == 0 - 2
 \* scalar atoms
 SA == IF Lvl = 1
       THEN {I_(2), R_(2), F_(1), F_(2), X_(F_(4), <<0>>), K_(1)}
-      ELSE {I_(2), R_(1), R_(2), F_(1), F_(2), F_(3), X_(F_(4), <<0>>), X_(F_(5), <<1>>), K_(1), X_(K_(3), <<0>>),
-            G_(1, 1), X_(G_(10, 1), <<1>>), A_(0, 1), A_(1, 2)}
+      ELSE {I_(2), R_(1), R_(2), F_(1), F_(2), F_(3), X_(F_(4), <<0>>), K_(1), X_(K_(3), <<0>>),
+            X_(G_(10, 1), <<1>>), A_(0, 1)}
 SB == IF Lvl = 1 THEN {F_(1), I_(2), K_(1)} ELSE {F_(1), F_(2), I_(2), K_(1)}
 
 AlgTerms ==
@@ -629,8 +641,11 @@ MeasureProgs ==
                               d \in {1, 2}}
       mds == {Emp, N("dict", <<1>>, <<MI(2)>>)}
       one == {Itg(m[1], m[2], md, m[3], g) : m \in ms, md \in mds, g \in (IF Lvl = 1 THEN {F_(1)} ELSE gs)}
-      two == {Itg(m[1], m[2], md, m[3], g) : m \in (IF Lvl = 1 THEN {<<1, <<0>>, 1>>, <<2, <<1>>, 1>>, <<1, <<1, 2>>, 2>>} ELSE ms),
-                                            md \in (IF Lvl = 1 THEN {Emp} ELSE mds), g \in gs}
+      two == {Itg(m[1], m[2], md, m[3], g)
+              : m \in (IF Lvl = 1 THEN {<<1, <<0>>, 1>>, <<2, <<1>>, 1>>, <<1, <<1, 2>>, 2>>}
+                       ELSE {<<1, <<0>>, 1>>, <<1, <<1>>, 1>>, <<2, <<1>>, 1>>, <<1, <<1, 2>>, 1>>, <<1, <<1>>, 2>>}),
+                md \in {Emp}, g \in gs}
+             \cup (IF Lvl = 1 THEN {} ELSE {Itg(1, <<1>>, N("dict", <<1>>, <<MI(2)>>), 1, F_(1)), Itg(1, <<0>>, N("dict", <<1>>, <<MI(3)>>), 2, F_(1))})
   IN {Prog(<<x>>) : x \in one} \cup {Prog(<<x, y>>) : x \in two, y \in two}
      \cup {Prog(<<Itg(3, <<0>>, Emp, 1, g)>>) : g \in ResTerms}
 
@@ -701,8 +716,10 @@ RenameInvisible == renok
 MutKind == IF kind[1] \in {"extop-argslot", "extop-operand", "interp-operand"} THEN kind[2] ELSE kind[1]
 SemanticVisible == (lvl \in {1, 3} /\ MutKind \notin OrderKinds) => rep # prep
 BaseWellFormed  == WellFormed(q)
-\* Canon of the representative is the representative's own class: Canon is idempotent
-RepIsProgramIndependent == lvl = 0 => rep = prep
+\* a mutation of a kind in OrderKinds (another coefficient / constant of the same space) is visible
+\* exactly when it changes the sharing pattern or the relative order of the counts: whatever Canon
+\* says about it, a renaming afterwards must not change the verdict
+VerdictStable == lvl = 3 => renok
 
 (* dump: one JSON line per state  [b, lvl, kind, program, rep, stripped rep or <<>>] *)
 RECURSIVE EncT(_)
